@@ -445,7 +445,7 @@ def callers_guarded(site, fn, pred, what):
     for cb, bi, tt in callers:
         for p in site.ctx.paths(site.f, cb, 'none'):
             for i, e in enumerate(p.events):
-                if e['kind'] == 'call' and e['res'] == fn and e['block'] == bi:
+                if e['kind'] == 'call' and e['res'] == fn and e['tblock'] == bi:
                     n += 1
                     good = False
                     for j in range(i - 1, -1, -1):
@@ -466,7 +466,7 @@ def p_add_or_replace_max_tx(site):
     for cb, bi, tt in callers:
         for p in site.ctx.paths(site.f, cb, 'none'):
             for e in p.calls():
-                if e['res'] == 'broadcast::Broadcasts::add_or_replace' and e['block'] == bi:
+                if e['res'] == 'broadcast::Broadcasts::add_or_replace' and e['tblock'] == bi:
                     n += 1
                     a = e['args'][3]
                     inner = a
